@@ -876,8 +876,11 @@ func readBackupFiles(d *nh.DB, dir string) ([][2]int, error) {
 	if err := json.Unmarshal(bs, &files); err != nil {
 		return out, err
 	}
+	// decoded with an instance of its own (Go-managed memory): the reader allocates items from its instance's allocator
+	dec := nitro.New()
+	defer dec.Close()
 	for _, f := range files {
-		rd := d.VerifNewFileReader(1)
+		rd := dec.VerifNewFileReader(1)
 		if err := rd.Open(filepath.Join(dir, f)); err != nil {
 			return out, err
 		}
